@@ -1,3 +1,25 @@
-From MW Require Import Num.
-Theorem placeholder : True. Proof. exact I. Qed.
-Print Assumptions placeholder.
+(*  C04 — Seeded runs are reproducible and bandit instances are isolated.
+   
+    What a model can carry: the model's step is a FUNCTION of (state, call), the generator and the third-party
+    libraries are functions of (state, request) by assumption (DESIGN.md 2.4), so equal constructor arguments and
+    equal call sequences give equal results by construction.  The non-trivial content is ISOLATION:
+    PROVED for every policy combination, every number of bandit objects in the process, every interleaving of the
+    calls addressed to one bandit with calls addressed to the others (any merge of the call lists): the results
+    of bandit i, and its final state, are those of bandit i driven alone through its own calls.
+    ..._partial: the model (after fix D5) has no state shared between instances; that the CODE has none is what
+    the correspondence (randomness trace of every generator request) and the four-interpreter relation check on
+    every run.  Hash-seed and process-boundary independence are runtime behaviour no model exhibits. *)
+From Coq Require Import List ZArith Bool Arith QArith Qcanon Permutation.
+From MW Require Import Num Assoc AssocFacts Rng Par CF CFInv CFClean CFForget CFSpec Matrix Lin Warm WarmInv Nbr NbrFacts NbrIndep LshFacts Clu Tree CellFacts Mab FacadeCF FacadeArms MoreFacts NumLaws CFAlg Sim Extra QcInst.
+Import ListNotations.
+
+Theorem C04_isolation_under_every_interleaving_partial :
+  forall (R A G : Type) (N : Num R) (aeqb : A -> A -> bool) (RG : RngOps R G) 
+    (calls : list (nat * (@op R A))) (w : list (@mab R A G)) (i : nat) (m : (@mab R A G)),
+  nth_error w i = Some m ->
+  only i (snd (wrun N aeqb RG w calls)) = snd (run N aeqb RG m (only i calls)) /\
+  nth_error (fst (wrun N aeqb RG w calls)) i = Some (fst (run N aeqb RG m (only i calls))).
+Proof. exact @isolation. Qed.
+Print Assumptions C04_isolation_under_every_interleaving_partial.
+
+
